@@ -244,7 +244,7 @@ PROPS = {
               "them on the functions with hidden caches; distinct by descriptor hash (program number); non-trivial when "
               "the program contains at least one equal-argument repeat separated by other calls"
              " Later additions have their own keys in by_case_class (DESIGN.md 5.1): call sequences and object life cycles, multi-threaded cases (also run under ThreadSanitizer), sweeps over every value of a size parameter, placement / alignment / data-structure modes drawn from the case hash."),
-        require={"all": ["calls", "repeated_argument_pairs_checked", "simple_vs_table_twin_checks", "fresh_process_comparisons", "concurrent_repetitions", "table_buffer_histories", "long_history_calls", "placement:7", "placement:8",
+        require={"all": ["calls", "repeated_argument_pairs_checked", "simple_vs_table_twin_checks", "fresh_process_comparisons", "concurrent_repetitions", "table_buffer_histories", "long_history_calls", "placement:7", "placement:8", "same_buffers_other_data_calls",
                          "cache_parameter_transitions", "function_parameter_states"]},
         assumptions=["output hashes (64-bit) stand for the output bytes", "arguments derive from the seed only; the "
                      "pre-fill pattern of outputs/scratch and the byte offset (0..56) of every buffer change between "
